@@ -7,7 +7,7 @@ CONSTANTS
   TotalSizes = {8}
   MaxWrites = 4
   MaxTs = 1
-  MaxDeletes = 2
+  MaxDeletes = 1
   MaxReopens = 0
   MaxPosOps = 2
   Active = {"r1"}
